@@ -154,6 +154,30 @@ let do_rep toks =
       Printf.printf " end %s\n" tmax
   | _ -> failwith "bad REP line"
 
+(* ---------------------------------------------------------------- backward LP rows of reparameterize_spline *)
+(* LPR case i ds ynext dof [vel acc]*dof vmin*dof vmax*dof amin*dof amax*dof ROWS ...   (the part after ROWS - the rows
+   the library handed to lp2d::solve and the solver's answer - is read by the comparator, not here) *)
+let do_lpr toks =
+  match toks with
+  | case :: i :: ds :: ynext :: dof :: rest ->
+      if ynext = "nan" then Printf.printf "LPR %s %s skip\n" case i
+      else begin
+        let dof = int_of_string dof in
+        let (va, rest) = take_n rest (2 * dof) in
+        let rec pairs l = match l with a :: b :: r -> (q_of_float (float_of_string a), q_of_float (float_of_string b)) :: pairs r | _ -> [] in
+        let (vmin, rest) = take_n rest dof in
+        let (vmax, rest) = take_n rest dof in
+        let (amin, rest) = take_n rest dof in
+        let (amax, _) = take_n rest dof in
+        let rows = bwd_rows (q_of_float (float_of_string ds)) (oq ynext) (pairs va) (qs vmin) (qs vmax) (qs amin) (qs amax) in
+        Printf.printf "LPR %s %s %d" case i (List.length rows);
+        List.iter (fun ((c0, c1), b) ->
+            Printf.printf " %h %h %s" (float_of_q c0) (float_of_q c1)
+              (match b with None -> "inf" | Some v -> Printf.sprintf "%h" (float_of_q v))) rows;
+        print_newline ()
+      end
+  | _ -> failwith "bad LPR line"
+
 (* ---------------------------------------------------------------- fit_bspline span *)
 let rec int_of_pos p = match p with XH -> 1 | XO r -> 2 * int_of_pos r | XI r -> 2 * int_of_pos r + 1
 let int_of_z x = match x with Z0 -> 0 | Zpos p -> int_of_pos p | Zneg p -> - (int_of_pos p)
@@ -177,6 +201,7 @@ let () =
        | "DUB" :: r -> do_dub r
        | "REP" :: r -> do_rep r
        | "BSP" :: r -> do_bsp r
+       | "LPR" :: r -> do_lpr r
        | _ -> ()
      done
    with End_of_file -> ())
